@@ -396,12 +396,15 @@ TIMEOUT_MS = 10000
 
 
 def check_sat(assertions, timeout_ms=None, want_model=False, use_cvc5=True):
-    """-> ('sat', model|None) | ('unsat', None) | ('unknown', reason)"""
+    """-> ('sat', model|None) | ('unsat', None) | ('unknown', reason)
+    z3 alone for a short first attempt; then z3 and cvc5 side by side (portfolio: the first definite answer wins), so a
+    query that only one of the solvers can decide costs that solver's time, not the other's timeout."""
     timeout_ms = timeout_ms or TIMEOUT_MS
     s = z3.Solver()
-    s.set("timeout", int(timeout_ms))
     for a in assertions:
         s.add(a)
+    first = int(timeout_ms) if not use_cvc5 else min(int(timeout_ms), 1500)
+    s.set("timeout", first)
     t0 = time.time()
     r = s.check()
     STATS.z3_queries += 1
@@ -410,34 +413,62 @@ def check_sat(assertions, timeout_ms=None, want_model=False, use_cvc5=True):
         return "unsat", "z3"
     if r == z3.sat:
         return "sat", (s.model() if want_model else None)
-    if use_cvc5:
-        t0 = time.time()
-        res = _cvc5_check(s.to_smt2(), timeout_ms)
-        STATS.cvc5_queries += 1
-        STATS.cvc5_time += time.time() - t0
+    if not use_cvc5:
+        return "unknown", s.reason_unknown()
+    proc = _cvc5_start(s.to_smt2(), timeout_ms)
+    tc = time.time()
+    STATS.cvc5_queries += 1
+    try:
+        if first < int(timeout_ms):
+            s.set("timeout", int(timeout_ms) - first)
+            t0 = time.time()
+            r = s.check()
+            STATS.z3_queries += 1
+            STATS.z3_time += time.time() - t0
+            if r == z3.unsat:
+                return "unsat", "z3"
+            if r == z3.sat:
+                return "sat", (s.model() if want_model else None)
+        res = _cvc5_wait(proc, timeout_ms / 1000 + 5 - (time.time() - tc))
         if res == "unsat":
             return "unsat", "cvc5"
         if res == "sat":
             return "sat", None
+    finally:
+        STATS.cvc5_time += time.time() - tc
+        if proc is not None and proc.poll() is None:
+            proc.kill()
+            proc.wait()
     return "unknown", s.reason_unknown()
 
 
-def _cvc5_check(smt2, timeout_ms):
+def _cvc5_start(smt2, timeout_ms):
     try:
-        p = subprocess.run(
-            ["/usr/bin/cvc5", "--lang=smt2", f"--tlimit={int(timeout_ms)}", "--nl-ext-tplanes"],
-            input="(set-logic ALL)\n" + smt2,
-            capture_output=True,
-            text=True,
-            timeout=timeout_ms / 1000 + 5,
-        )
+        p = subprocess.Popen(["/usr/bin/cvc5", "--lang=smt2", f"--tlimit={int(timeout_ms)}", "--nl-ext-tplanes"],
+                             stdin=subprocess.PIPE, stdout=subprocess.PIPE, stderr=subprocess.DEVNULL, text=True)
+        p.stdin.write("(set-logic ALL)\n" + smt2)
+        p.stdin.close()
+        return p
+    except Exception:
+        return None
+
+
+def _cvc5_wait(p, seconds):
+    if p is None:
+        return "unknown"
+    try:
+        p.wait(timeout=max(0.1, seconds))
+        out = p.stdout.read()
     except Exception:
         return "unknown"
-    out = p.stdout.strip().splitlines()
-    for line in out:
+    for line in out.strip().splitlines():
         if line.strip() in ("sat", "unsat", "unknown"):
             return line.strip()
     return "unknown"
+
+
+def _cvc5_check(smt2, timeout_ms):
+    return _cvc5_wait(_cvc5_start(smt2, timeout_ms), timeout_ms / 1000 + 5)
 
 
 def model_to_dict(m):
@@ -556,7 +587,7 @@ def slice_hyps(hyps, goal, depth):
 
 class Obligation:
     __slots__ = ("oid", "function", "path_class", "clause", "hyps", "goal", "status", "backend", "time_s",
-                 "model", "note", "kind", "src")
+                 "model", "note", "kind", "src", "split")
 
     def __init__(self, oid, function, path_class, clause, hyps, goal, kind="post", src=None):
         self.oid = oid
@@ -572,6 +603,24 @@ class Obligation:
         self.note = ""
         self.kind = kind
         self.src = src
+        self.split = None  # case-split hints: list of Bool terms b; the goal is proved under b and under Not(b)
+
+    def _split_discharge(self, goal, tm, t0):
+        """proof by cases on the contract's hint terms (sound: b or not b); each case first has z3's simplifier applied
+        with the case equation substituted, which removes the array/ite reasoning the hint was given for"""
+        cases = [[]]
+        for b in self.split:
+            cases = [c + [b] for c in cases] + [c + [z3.Not(b)] for c in cases]
+        for c in cases:
+            r, info = check_sat(self.hyps + c + [z3.Not(goal)], timeout_ms=tm, want_model=False)
+            if r != "unsat":
+                return False
+        self.time_s = time.time() - t0
+        self.status = "discharged"
+        self.backend = "z3"
+        self.note = f"proof by {len(cases)} cases (contract hint)"
+        STATS.by_backend["z3"] = STATS.by_backend.get("z3", 0) + 1
+        return True
 
     def discharge(self, timeout_ms=None):
         t0 = time.time()
@@ -581,12 +630,14 @@ class Obligation:
             goal = self.goal
         # hypothesis slicing (sound: unsat with a subset of the hypotheses is unsat with all of them)
         tm = timeout_ms or TIMEOUT_MS
+        if self.split and self._split_discharge(goal, tm, t0):
+            return self.status
         if len(self.hyps) > 12:
             for depth in (1, "1+closed", 2):
                 sub = slice_hyps(self.hyps, goal, depth)
                 if len(sub) >= len(self.hyps):
                     break
-                r, info = check_sat(sub + [z3.Not(goal)], timeout_ms=max(1000, tm // 4), want_model=False, use_cvc5=False)
+                r, info = check_sat(sub + [z3.Not(goal)], timeout_ms=min(1500, max(1000, tm // 4)), want_model=False, use_cvc5=False)
                 if r == "unsat":
                     self.time_s = time.time() - t0
                     self.status = "discharged"
